@@ -135,3 +135,42 @@ def replay_rebinding(inputs, obl):
     if problems:
         return dict(confirmed=True, detail='; '.join(problems[:3]))
     return dict(confirmed=False, detail='rebinding histories give the same results compiled and interpreted')
+
+
+def sequence_rows():
+    """(bounded) several expressions of the same SHAPE over the same variables evaluated one after another in ONE interpreter - the
+    compiled run against the interpreted run (compile_expr stubbed out): a+b style memoisation across expressions must not mix up
+    which variable is which (-> list of (name, ok, detail))"""
+    import klongpy.interpreter as ki
+    from klongpy import KlongInterpreter
+    from klongpy.core import kg_write
+    seqs = {
+        'swap-operands': ['a::10;b::3', 'a-b', 'b-a', 'a%b', 'b%a', 'a>b', 'b>a', 'a^b', 'b^a'],
+        'swap-in-functions': ['f::{x-y};g::{y-x}', 'f(10;3)', 'g(10;3)', 'f(3;10)', 'g(3;10)'],
+        'three-variables': ['a::1;b::2;c::4', '(a-b)-c', '(c-b)-a', '(b-a)-c', 'a-(b-c)', 'c-(b-a)'],
+        'same-shape-different-names': ['a::10;b::3;c::7', 'a-b', 'a-c', 'c-a', 'b-c'],
+        'lists-and-scalars': ['a::[1 2 3];b::2', 'a-b', 'b-a', 'a%b', 'b%a'],
+    }
+    out = []
+
+    def run(steps, stub):
+        real = ki.compile_expr
+        try:
+            if stub:
+                ki.compile_expr = lambda *a, **kw: None
+            k = KlongInterpreter()
+            res = []
+            for s in steps:
+                try:
+                    res.append(kg_write(k(s), k._backend))
+                except Exception as e:
+                    res.append('raises ' + type(e).__name__)
+            return res
+        finally:
+            ki.compile_expr = real
+    for name, steps in seqs.items():
+        c, i = run(steps, False), run(steps, True)
+        bad = [(s, x, y) for s, x, y in zip(steps, c, i) if x != y]
+        out.append((name, not bad, (f"after {'; '.join(steps[:steps.index(bad[0][0])])}: {bad[0][0]} compiled gives {bad[0][1]}, interpreted {bad[0][2]}") if bad
+                    else f"{len(steps)} steps agree"))
+    return out
